@@ -166,6 +166,9 @@ func (w *World) bindNames() {
 		"main":         modPath + "/cmd/protoc-gen-openapiv3", // the only plugin main with logic of its own
 		"pluginpb":     "google.golang.org/protobuf/types/pluginpb",
 		"time":         "time",
+		"timestamppb":  "google.golang.org/protobuf/types/known/timestamppb",
+		"base64":       "encoding/base64",
+		"hex":          "encoding/hex",
 		"utf8":         "unicode/utf8",
 		"context":      "context",
 	}
